@@ -18,7 +18,22 @@ def log(*a):
     print(*a, file=sys.stderr, flush=True)
 
 
+def ensure_dev_null():
+    """In this sandbox /dev/null can be a REGULAR file that collects whatever was redirected into it; cargo hands
+    it to its `rustc -` probe as the source text and the probe then fails on the garbage (seen as a build
+    failure no declaration can be blamed for).  A regular /dev/null is truncated before cargo runs."""
+    try:
+        import stat
+        st = os.stat("/dev/null")
+        if stat.S_ISREG(st.st_mode) and st.st_size:
+            open("/dev/null", "w").close()
+    except OSError:
+        pass
+
+
 def run(cmd, cwd=None, timeout=None, env=None, check=False, input=None):
+    if cmd and cmd[0] == "cargo":
+        ensure_dev_null()
     p = subprocess.run(cmd, cwd=cwd, env=env or ENV, timeout=timeout, input=input,
                        stdout=subprocess.PIPE, stderr=subprocess.PIPE, text=True)
     if check and p.returncode != 0:
